@@ -15,6 +15,7 @@ package push
 
 import (
 	"context"
+	"runtime"
 	"sync"
 	"time"
 
@@ -194,6 +195,19 @@ func (b *Broker) message(ctx context.Context) map[string][]Message {
 			defer cancel()
 			select {
 			case <-ctx.Done():
+				// Withdraw the responder. If it is no longer registered, a publisher (or a
+				// newer poll) has taken it and is about to fill it or to register it again:
+				// the result must not be left behind in a channel nobody reads.
+				for !b.responders.RemoveCb(id, func(_ string, v interface{}, exists bool) bool {
+					return exists && v.(chan map[string][]Message) == responder
+				}) {
+					select {
+					case result := <-responder:
+						return result
+					default:
+						runtime.Gosched()
+					}
+				}
 				go b.doHeartBeat(context.Background(), id)
 				return map[string][]Message{}
 			case result := <-responder:
